@@ -38,6 +38,30 @@ func classSpelling(c string, i int) string {
 	return "?"
 }
 
+// restyle rewrites the canonical spelling "{% x %}" / "{{ x }}" of one token.
+func restyle(s string, style int) string {
+	if style == 0 || len(s) < 6 || s[0] != '{' {
+		return s
+	}
+	open, close, inner := s[:2], s[len(s)-2:], s[3:len(s)-3]
+	switch style {
+	case 1:
+		return open + inner + close
+	case 2:
+		return open + "- " + inner + " -" + close
+	case 3:
+		return open + "-" + inner + "-" + close
+	case 4:
+		return open + " " + inner + "-" + close
+	case 5:
+		return open + "-" + inner + " " + close
+	case 6:
+		return open + "\n" + inner + "\n" + close
+	default:
+		return open + "  " + inner + "\t" + close
+	}
+}
+
 // treeOf projects the render tree; pos maps a node's source text to the
 // position of its token (spellings of leaves are made unique for text; obj
 // and tag leaves are matched in document order).
@@ -122,9 +146,26 @@ func runParse(c J) J {
 	for _, t := range jarr(c, "toks") {
 		toks = append(toks, t.(string))
 	}
+	// style: how the delimiters, the hyphens and the spacing of every tag and object outside raw / comment are
+	// written (the nesting is the same under every spelling)
+	style := jint(c, "style")
 	var sb strings.Builder
+	smode := ""
 	for i, t := range toks {
-		sb.WriteString(classSpelling(t, i+1))
+		sp := classSpelling(t, i+1)
+		switch {
+		case smode == "raw" || smode == "comment":
+			if t == "end"+smode {
+				smode = ""
+				sp = restyle(sp, style)
+			}
+		default:
+			if t == "raw" || t == "comment" {
+				smode = t
+			}
+			sp = restyle(sp, style)
+		}
+		sb.WriteString(sp)
 	}
 	src := sb.String()
 	obs["text"] = src
